@@ -655,6 +655,9 @@ func helperGoTest(fn string, arg int) string {
 // Replay
 
 func replay(class string, raw json.RawMessage) (string, bool) {
+	if class == "C11:unpack-trailing-octets" {
+		return replayTrailing(raw)
+	}
 	if class == "C11:unpack-receiver-reuse" {
 		return replayReuse(raw)
 	}
@@ -910,6 +913,7 @@ func run(r *enumlib.Run) {
 	c.helperSpace("IsGroupCommand", 256, "APCI(v).IsGroupCommand() for v = 0..255; judged for the 16 four-bit codes (true exactly for 0, 1, 2)")
 
 	c.reuseSpace()
+	c.trailingSpace()
 
 	// all control octet pairs
 	nsh, infoLens := 2, []int{0}
